@@ -25,6 +25,7 @@
        FREET <parse#> <termcb 0|1>
        FREEG <slot>
        ERR <slot>
+       SETS <s>               (C build with hooks) nullable flags and FIRST / FOLLOW sets of the grammar of slot s
        FAILAT <k>             (fault build only) fail the k-th allocation from now on
        FAILBIG <k> <minsize>  (fault build only) count the requests of at least minsize bytes from now on; the k-th fails (k < 0: none)
        COUNTERS               print allocator / hash counters
@@ -53,6 +54,9 @@ extern "C" {
 extern long yaep_verif_get (int what);
 extern void yaep_verif_set (int what, long value);
 extern long yaep_verif_stat (int what);
+#ifndef __cplusplus
+extern int yaep_verif_sets (struct grammar *g, int n, const char **name, int *buf, int size);
+#endif
 #ifdef __cplusplus
 }
 #endif
@@ -64,6 +68,8 @@ extern long yaep_verif_stat (int what);
 static long yv_n_allocs, yv_bytes, yv_fail_at = -1, yv_fail_seen;
 /* FAILBIG: requests of at least yv_big_min bytes are counted; the yv_big_fail-th of them fails */
 static long yv_big_min, yv_n_big, yv_big_fail = -1;
+/* blocks the library holds: successful requests minus releases */
+static long yv_live;
 static int yv_big (size_t n)
 {
   if (yv_big_min <= 0 || (long) n < yv_big_min) return 0;
@@ -79,23 +85,23 @@ void *yv_malloc (size_t n)
   yv_n_allocs++; yv_bytes += (long) n;
   if (yv_fail_at >= 0 && yv_n_allocs == yv_fail_at) { yv_fail_seen = 1; return NULL; }
   if (yv_big (n)) return NULL;
-  return malloc (n);
+  { void *r_ = malloc (n); if (r_ != NULL) yv_live++; return r_; }
 }
 void *yv_calloc (size_t a, size_t b)
 {
   yv_n_allocs++; yv_bytes += (long) (a * b);
   if (yv_fail_at >= 0 && yv_n_allocs == yv_fail_at) { yv_fail_seen = 1; return NULL; }
   if (yv_big (a * b)) return NULL;
-  return calloc (a, b);
+  { void *r_ = calloc (a, b); if (r_ != NULL) yv_live++; return r_; }
 }
 void *yv_realloc (void *p, size_t n)
 {
   yv_n_allocs++; yv_bytes += (long) n;
   if (yv_fail_at >= 0 && yv_n_allocs == yv_fail_at) { yv_fail_seen = 1; return NULL; }
   if (yv_big (n)) return NULL;
-  return realloc (p, n);
+  { void *r_ = realloc (p, n); if (p == NULL && r_ != NULL) yv_live++; return r_; }
 }
-void yv_free (void *p) { free (p); }
+void yv_free (void *p) { if (p != NULL) yv_live--; free (p); }
 #ifdef __cplusplus
 }
 #endif
@@ -643,7 +649,7 @@ static void run_case (void)
 	}
       else if (strcmp (t, "COUNTERS") == 0)
 	{
-	  fprintf (out, "{\"op\":\"counters\",\"allocs\":%ld,\"bytes\":%ld,\"fail_seen\":%ld,\"big\":%ld", yv_n_allocs, yv_bytes, yv_fail_seen, yv_n_big);
+	  fprintf (out, "{\"op\":\"counters\",\"allocs\":%ld,\"bytes\":%ld,\"fail_seen\":%ld,\"big\":%ld,\"live\":%ld", yv_n_allocs, yv_bytes, yv_fail_seen, yv_n_big, yv_live);
 #ifndef __cplusplus
 	  fprintf (out, ",\"searches\":%d,\"collisions\":%d", get_all_searches (), get_all_collisions ());
 #endif
@@ -660,6 +666,29 @@ static void run_case (void)
 	  yaep_verif_set (w, v);
 	  fprintf (out, "{\"op\":\"vset\"}");
 	}
+#ifndef __cplusplus
+      else if (strcmp (t, "SETS") == 0)
+	{
+	  /* SETS s: for every nonterminal of the grammar of slot s the flag `derives the empty string' and the
+	     FIRST / FOLLOW sets (terminal codes) computed when the grammar was read (hook) */
+	  int s = (int) next_int (), n, len, i, k;
+	  static int sbuf[70000];
+	  const char *nm;
+	  fprintf (out, "{\"op\":\"sets\",\"nts\":[");
+	  for (n = 0; (len = yaep_verif_sets (slots[s], n, &nm, sbuf, 70000)) >= 0; n++)
+	    {
+	      fprintf (out, "%s{\"name\":", n ? "," : ""); jstr (nm);
+	      fprintf (out, ",\"empty\":%d,\"first\":[", sbuf[0]);
+	      k = 1;
+	      for (i = 0; i < sbuf[k]; i++) fprintf (out, "%s%d", i ? "," : "", sbuf[k + 1 + i]);
+	      k += 1 + sbuf[k];
+	      fprintf (out, "],\"follow\":[");
+	      for (i = 0; i < sbuf[k]; i++) fprintf (out, "%s%d", i ? "," : "", sbuf[k + 1 + i]);
+	      fprintf (out, "]}");
+	    }
+	  fprintf (out, "],\"end\":%d}", len);
+	}
+#endif
 #endif
       else
 	{
@@ -795,7 +824,7 @@ int main (int argc, char **argv)
 		  if (k <= 0) eopen = 0;
 		  else
 		    {
-		      if (en + k > 60000) { size_t keep = 8000; memmove (ebuf, ebuf + en - keep, keep); en = keep; }
+		      if (en + k > 60000 && en > 8000) { size_t keep = 8000; memmove (ebuf, ebuf + en - keep, keep); en = keep; }
 		      if (en + k + 1 > ecap) { ecap = (en + k + 1) * 2; ebuf = (char *) realloc (ebuf, ecap); }
 		      memcpy (ebuf + en, tmp, k); en += k;
 		    }
